@@ -110,7 +110,6 @@ CachesFor(scn, w) ==
 CasesOf(scn, i) ==
   UNION {{[scn |-> scn.name, i |-> i, m |-> x.m, w |-> x.w, cache |-> cch] : cch \in CachesFor(scn, x.w)}
          : x \in Mutants(scn, i)}
-Cases == UNION {UNION {CasesOf(scn, i) : i \in (IF scn.name = "zero" THEN ZeroIdx ELSE BaseIdx)} : scn \in Scenarios}
 
 SignedOf(name) == (CHOOSE scn \in Scenarios : scn.name = name).signed
 Verdict(x) == Receive(x.w, CacheCommit(x.cache), "L")
@@ -124,49 +123,47 @@ CacheRel(x) == IF x.cache = NoSlice THEN "none"
                ELSE IF Decodable(x.w) /\ Commit(x.cache) = CommitmentOf(x.w) THEN "identical" ELSE "different"
 Expected(x) == [verdict |-> Verdict(x), commit |-> AcceptedSlice(x), pathOk |-> PathOk(x)]
 
-InitCases == st \in Cases
-NextCases == UNCHANGED st
+\* Initial states are SEEDS (scenario, base position); the cases are their successors, so that TLC's
+\* workers enumerate and check them in parallel.
+ScnOf(name) == CHOOSE scn \in Scenarios : scn.name = name
+CaseSeeds == UNION {{[scn |-> scn.name, i |-> i, m |-> "seed"] : i \in (IF scn.name = "zero" THEN ZeroIdx ELSE BaseIdx)}
+                    : scn \in Scenarios}
+InitCases == st \in CaseSeeds
+NextCases == st.m = "seed" /\ st' \in CasesOf(ScnOf(st.scn), st.i)
+IsCase == st.m # "seed"
 
 \* --- C12 on every case
-CaseWellFormed == SigWellFormed(st.w, SignedOf(st.scn)) /\ (st.cache # NoSlice => st.cache \in SignedOf(st.scn))
+CaseWellFormed == IsCase => SigWellFormed(st.w, SignedOf(st.scn)) /\ (st.cache # NoSlice => st.cache \in SignedOf(st.scn))
 BaseAccepted ==
-  st.m \in {"none", "replay-shred", "other-shred"} =>
+  IsCase /\ st.m \in {"none", "replay-shred", "other-shred"} =>
     Verdict(st) = (IF st.cache = NoSlice \/ Commit(st.cache) = CommitmentOf(st.w) THEN "Ok" ELSE "Equivocation")
 \* implementation-shaped try_new = declarative ValidShred / EquivocationProof
 Conformance ==
-  Decodable(st.w) =>
+  IsCase /\ Decodable(st.w) =>
     /\ (Verdict(st) = "Ok") = ValidShred(st.w, CacheCommit(st.cache), "L")
     /\ (Verdict(st) = "Equivocation") = EquivocationProof(st.w, CacheCommit(st.cache), "L")
-AcceptedImpliesSigned == Verdict(st) = "Ok" => Authentic(st.w, SignedOf(st.scn)) /\ AcceptedSlice(st) # NoSlice
+AcceptedImpliesSigned == (IsCase /\ Verdict(st) = "Ok") => (Authentic(st.w, SignedOf(st.scn)) /\ AcceptedSlice(st) # NoSlice)
 \* whatever is accepted is, up to the unbound tag and signature bytes, a shred the leader produced
-AlteredRejected == Verdict(st) = "Ok" => Genuine(st.w, SignedOf(st.scn))
+AlteredRejected == (IsCase /\ Verdict(st) = "Ok") => Genuine(st.w, SignedOf(st.scn))
 CacheOnlyShortcutsIdentical ==
-  st.cache # NoSlice =>
+  IsCase /\ st.cache # NoSlice =>
     /\ Verdict(st) = "Ok" => CommitmentOf(st.w) = Commit(st.cache)
     /\ (Decodable(st.w) /\ CommitmentOf(st.w) # Commit(st.cache)) =>
           Verdict(st) = (IF Receive(st.w, NoCommit, "L") = "Ok" THEN "Equivocation" ELSE Receive(st.w, NoCommit, "L"))
 TwoCommitmentsReported ==
-  (Decodable(st.w) /\ st.cache # NoSlice /\ Verify(st.w.sig, CommitmentOf(st.w), "L")
+  (IsCase /\ Decodable(st.w) /\ st.cache # NoSlice /\ Verify(st.w.sig, CommitmentOf(st.w), "L")
      /\ CommitmentOf(st.w) # Commit(st.cache)) => Verdict(st) = "Equivocation"
-CorrectLeaderNeverAccused == st.scn # "byz" => Verdict(st) # "Equivocation"
+CorrectLeaderNeverAccused == (IsCase /\ st.scn # "byz") => Verdict(st) # "Equivocation"
 
 WOut(w) ==
   [tag |-> w.tag, slot |-> w.slot, slice |-> w.slice, isLast |-> w.isLast, index |-> w.index,
    payload |-> w.payload, sig |-> w.sig,
    proof |-> IF "c" \in DOMAIN w.payload /\ w.proof = PathD(w.payload.c, w.payload.i)
              THEN [path |-> w.payload] ELSE [elems |-> w.proof]]
-EmitCase == PrintT(<<"CASE", ToJson([scn |-> st.scn, i |-> st.i, m |-> st.m, w |-> WOut(st.w),
+EmitCase == IsCase => PrintT(<<"CASE", ToJson([scn |-> st.scn, i |-> st.i, m |-> st.m, w |-> WOut(st.w),
                                      cache |-> st.cache, cacheRel |-> CacheRel(st), exp |-> Expected(st)])>>)
 
-\* vacuity witnesses (each must be violated = reachable)
-W_Equivocation == Verdict(st) # "Equivocation"
-W_ShortcutSkipsSignature == ~(st.cache # NoSlice /\ Verdict(st) = "Ok" /\ ~Verify(st.w.sig, CommitmentOf(st.w), "L"))
-W_TagFlipAccepted == ~(st.m = "tag" /\ Verdict(st) = "Ok")
-W_ZeroAlias == ~(st.scn = "zero" /\ st.m = "index" /\ Verdict(st) = "Ok")
-W_IndexRejected == ~(st.scn = "correct" /\ st.m = "index" /\ Verdict(st) = "InvalidSignature")
-W_Undecodable == Verdict(st) # "Undecodable"
-W_FlagOnlyEquivocation == ~(st.m = "replay-shred" /\ st.cache = Base /\ Verdict(st) = "Equivocation"
-                             /\ CommitmentOf(st.w).root = Commit(Base).root)
+\* (vacuity: vlib/props/c12.py requires the interesting verdict classes among the replayed cases)
 
 ---------------------------------------------------------------------------
 (* 2. the block store of one slot, every arrival order (Total = 4, Data = 2) *)
@@ -276,19 +273,22 @@ RunFrom(bs, steps, k) ==
              complete |-> r.bs.complete]>> \o RunFrom(r.bs, steps, k + 1)
 Run(sq) == RunFrom(BsInit(SliceIds), sq.steps, 1)
 
-InitSeqs == st \in Seqs
-NextSeqs == UNCHANGED st
+\* seeds (order, n) -> the sequences with that order and n (parallel evaluation, as for the cases)
+SeqSeeds == {[seed |-> TRUE, order |-> sq.order, n |-> sq.n] : sq \in Seqs}
+InitSeqs == st \in SeqSeeds
+NextSeqs == "seed" \in DOMAIN st /\ st' \in {sq \in Seqs : sq.order = st.order /\ sq.n = st.n}
+IsSeq == "seed" \notin DOMAIN st
 
 CountEv(run, e) == Cardinality({<<k, j>> \in (1..Len(run)) \X (1..4) : j <= Len(run[k].events) /\ run[k].events[j] = e})
 \* no sequence of shreds around a correct leader's slices gets the leader flagged, and the block still completes
 Seq_CorrectNeverFlagged ==
-  st.scn = "correct" =>
+  IsSeq /\ st.scn = "correct" =>
     LET run == Run(st) IN
     /\ \A k \in 1..Len(run) : ~run[k].flagged /\ run[k].verdict # "Equivocation" /\ run[k].ret \notin {"Equivocation", "InvalidShred"}
     /\ CountEv(run, "InvalidBlock") = 0 /\ CountEv(run, "Block") = 1 /\ CountEv(run, "FirstShred") = 1
 \* two conflicting signed slices: reported in either order, at one level or the other; flagged at most once
 Seq_ConflictReported ==
-  st.scn = "byz" =>
+  IsSeq /\ st.scn = "byz" =>
     LET run == Run(st) IN
     /\ \E k \in 1..Len(run) : run[k].verdict = "Equivocation" \/ run[k].ret = "Equivocation"
     /\ CountEv(run, "InvalidBlock") <= 1
@@ -296,14 +296,11 @@ Seq_ConflictReported ==
                                 => run[k].flagged
 
 EmitSeq ==
+  IsSeq =>
   LET run == Run(st) IN
   PrintT(<<"SEQ", ToJson([name |-> st.name, scn |-> st.scn, m |-> st.m, f |-> st.f, n |-> st.n, order |-> st.order,
                           steps |-> [k \in 1..Len(st.steps) |->
                                        [w |-> WOut(st.steps[k].w), uc |-> st.steps[k].uc, role |-> st.steps[k].role,
                                         exp |-> run[k]]]])>>)
 
-W_Seq_Dropped == ~(\E k \in 1..Len(Run(st)) : Run(st)[k].ret = "Dropped")
-W_Seq_ShortcutStored == ~(st.m = "sig-bytes" /\ \E k \in 1..Len(st.steps) :
-                            st.steps[k].w.sig = NoSig /\ Run(st)[k].ret = "Ok")
-W_Seq_BlockThenInvalid == ~(\E k \in 1..Len(Run(st)) : Run(st)[k].complete /\ Run(st)[k].flagged)
 =============================================================================
